@@ -265,9 +265,9 @@ def run(ctx):
     r1 = ctx.rule("R1", "every path is fspath()-converted, joined to the target's working directory when relative, and normalised", min_instances=3)
     rule_norm_path(ctx, r1)
     r2 = ctx.rule("R2", "provides / dependencies / dependents are written exactly as the file relation prescribes, producers registered first", min_instances=1)
-    ctx.structural_or_witness(r2, rule_graph_construction, lambda: graph_witness_summary(ctx, relations_only=True), "src/gwf/core.py::Graph.from_targets")
+    ctx.structural_or_witness(r2, rule_graph_construction, lambda: graph_witness_summary(ctx, relations_only=True), "src/gwf/core.py::Graph.from_targets", both=True)
     r3 = ctx.rule("R3", "endpoints are the targets nothing depends on; no phantom entries in the defaultdicts before endpoints()", min_instances=2)
-    ctx.structural_or_witness(r3, rule_endpoints_formula, lambda: graph_witness_summary(ctx, relations_only=True), "src/gwf/core.py::Graph.endpoints")
+    ctx.structural_or_witness(r3, rule_endpoints_formula, lambda: graph_witness_summary(ctx, relations_only=True), "src/gwf/core.py::Graph.endpoints", both=True)
     rule_endpoints(ctx, r3)
     r4 = ctx.rule("R4", "`gwf info` reports the graph's own relations under the right labels", min_instances=5)
     rule_info(ctx, r4)
